@@ -55,7 +55,7 @@ func (n *NSQD) DeleteExistingTopicCallbackVerif() func(*Topic) {
 
 func verifHTTPServer(o *Options) (*httpServer, *NSQD) {
 	n := verifShellNSQD(o)
-	verifrt.Stub("(*github.com/nsqio/nsq/nsqd.NSQD).Notify", verifNotifyNop)
+	verifrt.StubNative("(*github.com/nsqio/nsq/nsqd.NSQD).Notify", verifNotifyNop)
 	return &httpServer{nsqd: n}, n
 }
 
